@@ -30,6 +30,15 @@ theorem pyBitXor_ofNat (a b : Nat) : pyBitXor (Val.ofNat a) (Val.ofNat b) = .val
 theorem pyShr_ofNat (a b : Nat) : pyShr (Val.ofNat a) (Val.ofNat b) = .val (Val.ofNat (a >>> b)) :=
   bitop_ofNat _ a b
 
+/-- `Res.bind_val` with a proof that is not `rfl`: `simp` then records an explicit rewriting step instead of
+    leaving the kernel to re-evaluate the whole program by definitional unfolding -/
+theorem bind_val' {α β} (a : α) (f : α → Res β) : (Res.val a >>= f) = f a := by
+  rw [Res.bind_val]
+theorem bind_rte' {α β} (f : α → Res β) : ((Res.rte : Res α) >>= f) = Res.rte := by
+  rw [Res.bind_rte]
+theorem bind_exc' {α β} (f : α → Res β) : ((Res.exc : Res α) >>= f) = Res.exc := by
+  rw [Res.bind_exc]
+
 /-! ### gray2int -/
 
 /-- `common.gray2int(binstr)` on a non-empty bit string -/
@@ -138,11 +147,16 @@ theorem pyLen_ne_13 (b : Bits) : pyNe (Val.ofNat b.length) (Val.num 13) = .val (
   simp only [Nat.cast_ofNat] at this
   simp [pyNe, this]
 
+/-- the argument check shared by `altitude` and `squawk` -/
+theorem guard13 (b : Bits) :
+    (do let b__1 ← (do pyNe (← pyLen (Val.ofBits b)) (Val.num 13)); if pyTruth b__1 then pure b__1 else (do pyNot (← pyCharsSubset (Val.ofBits b) (Val.str ['0', '1'])))) =
+      .val (.bool (decide (b.length ≠ 13))) := by
+  simp only [ofBits_length, Res.bind_val, pyLen_ne_13, pyTruth_bool, pyCharsSubset_ofBits, pyNot_bool, Res.pure_eq]
+  by_cases hb : b.length = 13 <;> simp [hb]
+
 theorem altitude13_ne (b : Bits) (hb : b.length ≠ 13) : altitude13 b = .rte := by
-  unfold altitude13
-  split
-  · simp at hb
-  · rfl
+  rcases b with _ | ⟨a0, _ | ⟨a1, _ | ⟨a2, _ | ⟨a3, _ | ⟨a4, _ | ⟨a5, _ | ⟨a6, _ | ⟨a7, _ | ⟨a8, _ | ⟨a9,
+    _ | ⟨a10, _ | ⟨a11, _ | ⟨a12, _ | ⟨a13, t⟩⟩⟩⟩⟩⟩⟩⟩⟩⟩⟩⟩⟩⟩ <;> first | rfl | exact absurd rfl hb
 
 /-- `int(N * 3.28084)` -/
 theorem pyInt1_m2ft (n : Nat) :
@@ -155,28 +169,32 @@ theorem pyInt1_m2ft (n : Nat) :
     exact not_lt.mpr this
   have hf : Rat.floor ((n : Rat) * ((82021 : Rat) / 25000)) = ((n * 328084 / 100000 : Nat) : Int) := by
     rw [hq]
-    exact Rat.floor_natCast_div_natCast _ _
+    have : ∀ q : Rat, Rat.floor q = ⌊q⌋ := fun _ => rfl
+    rw [this, Rat.floor_natCast_div_natCast, ← Int.natCast_div]
   simp only [pyInt1, h0, if_false, hf, m2ft]
 
 /-- `common.altitude(binstr)` on any bit string (`RuntimeError` unless it has 13 bits) -/
 theorem altitude_tie (b : Bits) :
     Gen.py_common.altitude (Val.ofBits b) = (altitude13 b >>= fun o => .val (Val.ofOptInt o)) := by
   unfold Gen.py_common.altitude
-  simp only [ofBits_length, Res.bind_val, pyLen_ne_13, pyTruth_bool]
+  rw [guard13]
   by_cases hb : b.length = 13
   swap
-  · simp [hb, altitude13_ne b hb]
+  · have hd : decide (b.length ≠ 13) = true := by simp [hb]
+    rw [altitude13_ne b hb, hd]
+    simp only [pyTruth_bool, if_true, bind_val', bind_rte']
+  have hd : decide (b.length ≠ 13) = false := by simp [hb]
+  rw [hd]
+  simp only [pyTruth_bool, Bool.false_eq_true, if_false, Res.pure_eq, bind_val']
   obtain ⟨C1, A1, C2, A2, C4, A4, M, B1, Q, B2, D2, B4, D4, rfl⟩ :
       ∃ C1 A1 C2 A2 C4 A4 M B1 Q B2 D2 B4 D4, b = [C1, A1, C2, A2, C4, A4, M, B1, Q, B2, D2, B4, D4] := by
     rcases b with _ | ⟨a0, _ | ⟨a1, _ | ⟨a2, _ | ⟨a3, _ | ⟨a4, _ | ⟨a5, _ | ⟨a6, _ | ⟨a7, _ | ⟨a8, _ | ⟨a9,
       _ | ⟨a10, _ | ⟨a11, _ | ⟨a12, _ | ⟨a13, t⟩⟩⟩⟩⟩⟩⟩⟩⟩⟩⟩⟩⟩⟩ <;> simp at hb
     exact ⟨a0, a1, a2, a3, a4, a5, a6, a7, a8, a9, a10, a11, a12, rfl⟩
-  simp only [hb, ne_eq, not_true_eq_false, decide_false, Bool.false_eq_true, if_false, pyCharsSubset_ofBits,
-    Res.bind_val, pyNot, Val.truth, Bool.not_true, pyTruth_bool, Res.pure_eq]
   have hidx : ∀ k (hk : k < 13), idxR [C1, A1, C2, A2, C4, A4, M, B1, Q, B2, D2, B4, D4] k =
       .val ([C1, A1, C2, A2, C4, A4, M, B1, Q, B2, D2, B4, D4][k]'(by simpa using hk)) :=
     fun k hk => idxR_of_lt _ k (by simpa using hk)
-  simp only [pyIdxN_ofBits1, hidx, Nat.reduceLT, List.getElem_cons_succ, List.getElem_cons_zero, Res.bind_val,
+  simp only [pyIdxN_ofBits1, hidx, Nat.reduceLT, List.getElem_cons_succ, List.getElem_cons_zero, bind_val',
     pyEq_bit_zero, pyEq_bit_one, pyTruth_bool, pySliceTo_ofBits, pySliceFrom_ofBits, pyAdd_ofBits, bin2int_ofBits,
     List.take_succ_cons, List.take_zero, List.drop_succ_cons, List.drop_zero, List.cons_append, List.nil_append,
     List.append_nil]
@@ -185,7 +203,7 @@ theorem altitude_tie (b : Bits) :
   have hz := pyEq_ofNat (PyModeS.bin2int [C1, A1, C2, A2, C4, A4, M, B1, Q, B2, D2, B4, D4]) 0
   simp only [Nat.cast_zero] at hz
   have hg := gray2alt_tie [D2, D4, A1, A2, A4, B1, B2, B4, C1, C2, C4] (by simp)
-  simp only [hcons, Res.bind_val, hz, hmul, pyInt1_m2ft, pySub_num, pyTruth_bool, hg]
+  simp only [hcons, bind_val', hz, hmul, pyInt1_m2ft, pySub_num, pyTruth_bool, hg]
   unfold altitude13
   simp only []
   by_cases h0 : PyModeS.bin2int [C1, A1, C2, A2, C4, A4, M, B1, Q, B2, D2, B4, D4] = 0
@@ -249,34 +267,139 @@ theorem pyStr_ofNat (n : Nat) : pyStr (Val.ofNat n) = .val (.str (toString n).to
   rw [this]
   rfl
 
+theorem pyAdd_str (x y : List Char) : pyAdd (.str x) (.str y) = .val (.str (x ++ y)) := by
+  simp only [pyAdd]
+
 theorem squawk_ne (b : Bits) (hb : b.length ≠ 13) : PyModeS.squawk b = .rte := by
-  unfold PyModeS.squawk
-  split
-  · simp at hb
-  · rfl
+  rcases b with _ | ⟨a0, _ | ⟨a1, _ | ⟨a2, _ | ⟨a3, _ | ⟨a4, _ | ⟨a5, _ | ⟨a6, _ | ⟨a7, _ | ⟨a8, _ | ⟨a9,
+    _ | ⟨a10, _ | ⟨a11, _ | ⟨a12, _ | ⟨a13, t⟩⟩⟩⟩⟩⟩⟩⟩⟩⟩⟩⟩⟩⟩ <;> first | rfl | exact absurd rfl hb
 
 /-- `common.squawk(binstr)` on any bit string (`RuntimeError` unless it has 13 bits) -/
 theorem squawk_tie (b : Bits) :
     Gen.py_common.squawk (Val.ofBits b) = (PyModeS.squawk b >>= fun l => .val (Val.ofDigits l)) := by
   unfold Gen.py_common.squawk
-  simp only [ofBits_length, Res.bind_val, pyLen_ne_13, pyTruth_bool]
+  rw [guard13]
   by_cases hb : b.length = 13
   swap
-  · simp [hb, squawk_ne b hb]
+  · have hd : decide (b.length ≠ 13) = true := by simp [hb]
+    rw [squawk_ne b hb, hd]
+    simp only [pyTruth_bool, if_true, bind_val', bind_rte']
+  have hd : decide (b.length ≠ 13) = false := by simp [hb]
+  rw [hd]
+  simp only [pyTruth_bool, Bool.false_eq_true, if_false, Res.pure_eq, bind_val']
   obtain ⟨C1, A1, C2, A2, C4, A4, M, B1, Q, B2, D2, B4, D4, rfl⟩ :
       ∃ C1 A1 C2 A2 C4 A4 M B1 Q B2 D2 B4 D4, b = [C1, A1, C2, A2, C4, A4, M, B1, Q, B2, D2, B4, D4] := by
     rcases b with _ | ⟨a0, _ | ⟨a1, _ | ⟨a2, _ | ⟨a3, _ | ⟨a4, _ | ⟨a5, _ | ⟨a6, _ | ⟨a7, _ | ⟨a8, _ | ⟨a9,
       _ | ⟨a10, _ | ⟨a11, _ | ⟨a12, _ | ⟨a13, t⟩⟩⟩⟩⟩⟩⟩⟩⟩⟩⟩⟩⟩⟩ <;> simp at hb
     exact ⟨a0, a1, a2, a3, a4, a5, a6, a7, a8, a9, a10, a11, a12, rfl⟩
-  simp only [hb, ne_eq, not_true_eq_false, decide_false, Bool.false_eq_true, if_false, pyCharsSubset_ofBits,
-    Res.bind_val, pyNot, Val.truth, Bool.not_true, pyTruth_bool, Res.pure_eq]
   have hidx : ∀ k (hk : k < 13), idxR [C1, A1, C2, A2, C4, A4, M, B1, Q, B2, D2, B4, D4] k =
       .val ([C1, A1, C2, A2, C4, A4, M, B1, Q, B2, D2, B4, D4][k]'(by simpa using hk)) :=
     fun k hk => idxR_of_lt _ k (by simpa using hk)
+  simp only [pyIdxN_ofBits1, hidx, Nat.reduceLT, List.getElem_cons_succ, List.getElem_cons_zero, bind_val']
   have hcons : ∀ (x : Bool) (l : Bits), bin2intR (x :: l) = .val (PyModeS.bin2int (x :: l)) := fun _ _ => rfl
-  have hadd : ∀ x y : List Char, pyAdd (.str x) (.str y) = .val (.str (x ++ y)) := fun _ _ => rfl
-  simp only [pyIdxN_ofBits1, hidx, Nat.reduceLT, List.getElem_cons_succ, List.getElem_cons_zero, Res.bind_val,
-    pyAdd_ofBits, pyInt2_ofBits, List.cons_append, List.nil_append, hcons, pyStr_ofNat, hadd, PyModeS.squawk,
-    Val.ofDigits, List.flatMap_cons, List.flatMap_nil, List.append_nil, List.append_assoc]
+  simp only [bind_val', pyAdd_ofBits, pyInt2_ofBits, List.cons_append, List.nil_append, hcons, pyStr_ofNat]
+  have hsq : PyModeS.squawk [C1, A1, C2, A2, C4, A4, M, B1, Q, B2, D2, B4, D4] =
+      .val [PyModeS.bin2int [A4, A2, A1], PyModeS.bin2int [B4, B2, B1], PyModeS.bin2int [C4, C2, C1],
+        PyModeS.bin2int [D4, D2, Q]] := rfl
+  rw [hsq]
+  simp only [bind_val', Val.ofDigits, List.flatMap_cons, List.flatMap_nil, List.append_nil]
+  generalize (toString (PyModeS.bin2int [A4, A2, A1])).toList = s1
+  generalize (toString (PyModeS.bin2int [B4, B2, B1])).toList = s2
+  generalize (toString (PyModeS.bin2int [C4, C2, C1])).toList = s3
+  generalize (toString (PyModeS.bin2int [D4, D2, Q])).toList = s4
+  simp only [pyAdd_str, bind_val', List.append_assoc]
+
+theorem toString_digit (d : Nat) (h : d < 8) : (toString d).toList = [Nat.digitChar d] := by
+  interval_cases d <;> rfl
+
+/-- the string that encodes a squawk has exactly one character per octal digit -/
+theorem ofDigits_squawk (b : Bits) (l : List Nat) (h : PyModeS.squawk b = .val l) :
+    l.length = 4 ∧ (∀ d ∈ l, d < 8) ∧ Val.ofDigits l = .str (l.map Nat.digitChar) := by
+  by_cases hb : b.length = 13
+  swap
+  · rw [squawk_ne b hb] at h; cases h
+  obtain ⟨C1, A1, C2, A2, C4, A4, M, B1, Q, B2, D2, B4, D4, rfl⟩ :
+      ∃ C1 A1 C2 A2 C4 A4 M B1 Q B2 D2 B4 D4, b = [C1, A1, C2, A2, C4, A4, M, B1, Q, B2, D2, B4, D4] := by
+    rcases b with _ | ⟨a0, _ | ⟨a1, _ | ⟨a2, _ | ⟨a3, _ | ⟨a4, _ | ⟨a5, _ | ⟨a6, _ | ⟨a7, _ | ⟨a8, _ | ⟨a9,
+      _ | ⟨a10, _ | ⟨a11, _ | ⟨a12, _ | ⟨a13, t⟩⟩⟩⟩⟩⟩⟩⟩⟩⟩⟩⟩⟩⟩ <;> simp at hb
+    exact ⟨a0, a1, a2, a3, a4, a5, a6, a7, a8, a9, a10, a11, a12, rfl⟩
+  have hsq : PyModeS.squawk [C1, A1, C2, A2, C4, A4, M, B1, Q, B2, D2, B4, D4] =
+      .val [PyModeS.bin2int [A4, A2, A1], PyModeS.bin2int [B4, B2, B1], PyModeS.bin2int [C4, C2, C1],
+        PyModeS.bin2int [D4, D2, Q]] := rfl
+  rw [hsq] at h
+  injection h with h
+  subst h
+  have h3 : ∀ x y z : Bool, PyModeS.bin2int [x, y, z] < 8 := fun x y z => bin2int_lt [x, y, z]
+  refine ⟨rfl, ?_, ?_⟩
+  · intro d hd
+    simp only [List.mem_cons, List.not_mem_nil, or_false] at hd
+    rcases hd with rfl | rfl | rfl | rfl <;> exact h3 _ _ _
+  · simp only [Val.ofDigits, List.flatMap_cons, List.flatMap_nil, toString_digit _ (h3 _ _ _), List.map_cons,
+      List.map_nil, List.cons_append, List.nil_append]
+
+/-- `common.idcode(msg)` on any hex string of at least two digits -/
+theorem idcode_tie (m : Msg) (h : IsHex m) (hl : 2 ≤ m.length) :
+    Gen.py_common.idcode (.str m) = (PyModeS.idcode m >>= fun l => .val (Val.ofDigits l)) := by
+  unfold Gen.py_common.idcode PyModeS.idcode
+  have hne : m ≠ [] := by intro e; simp [e] at hl
+  have hin := pyNotIn_ofNat (PyModeS.df m) [5, 21]
+  simp only [List.map_cons, List.map_nil, Nat.cast_ofNat] at hin
+  simp only [df_str m h hl, Res.bind_val, hin, pyTruth_bool, hex2bin_str m h hne, pySliceNN_ofBits, squawk_tie]
+  by_cases hd : PyModeS.df m ∈ [5, 21]
+  · have hd' := hd
+    simp only [List.mem_cons, List.not_mem_nil, or_false] at hd'
+    have : ¬ (PyModeS.df m ≠ 5 ∧ PyModeS.df m ≠ 21) := by omega
+    simp only [hd, decide_true, Bool.not_true, Bool.false_eq_true, if_false, this, Res.bind_val, Res.pure_eq]
+  · have hd' := hd
+    simp only [List.mem_cons, List.not_mem_nil, or_false] at hd'
+    have : (PyModeS.df m ≠ 5 ∧ PyModeS.df m ≠ 21) := by omega
+    simp only [hd, decide_false, Bool.not_false, if_true]
+    rw [if_pos this]
+    rfl
+
+/-! ### icao -/
+
+/-- `None` or a string -/
+def Val.ofOptStr : Option Msg → Val
+  | none => .none
+  | some s => .str s
+
+theorem pyFmtHexU6_ofNat (x : Nat) : pyFmtHexU 6 (Val.ofNat x) = .val (.str (hex6 x)) := by
+  simp only [pyFmtHexU, int?_ofNat]
+  rfl
+
+theorem common_crc_true (m : Msg) (h : IsHex m) (hl : 6 ≤ m.length) :
+    Gen.Ext.common_crc (.str m) (.bool true) = .val (Val.ofNat (crc m true)) := by
+  have hall : (m.all fun c => (hexVal? c).isSome) = true := List.all_eq_true.mpr h
+  have hlt : ¬ (m.length < 6) := by omega
+  simp only [Gen.Ext.common_crc, hall, hlt, Bool.not_true, Bool.false_eq_true, or_self, if_false, Val.truth]
+
+/-- `msg[-6:]` -/
+theorem pySlice_last6 (m : Msg) : pySlice (.str m) (some (Val.num (-6))) none = .val (.str (takeLast 6 m)) := by
+  have h6 : (Val.num (-6)).int? = some (-((6 : Nat) : Int)) := by simp [Val.int?]
+  simp only [pySlice, optInt, h6, bind_val', sliceList, normBound_neg _ 6 (by decide), takeLast, slice]
+  congr 2
+  apply List.take_of_length_le
+  simp only [List.length_drop]
+  omega
+
+theorem isHex_takeLast {m : Msg} (h : IsHex m) (k : Nat) : IsHex (takeLast k m) :=
+  fun c hc => h c (List.mem_of_mem_drop hc)
+
+/-- `common.icao(msg)` on a hex string of at least six digits: `None` or the 6-character address -/
+theorem icao_tie (m : Msg) (h : IsHex m) (hl : 6 ≤ m.length) :
+    Gen.py_common.icao (.str m) = .val (Val.ofOptStr (PyModeS.icao m)) := by
+  unfold Gen.py_common.icao PyModeS.icao
+  have hin1 := pyIn_ofNat (PyModeS.df m) [11, 17, 18]
+  have hin2 := pyIn_ofNat (PyModeS.df m) [0, 4, 5, 16, 20, 21]
+  simp only [List.map_cons, List.map_nil, Nat.cast_ofNat, Nat.cast_zero] at hin1 hin2
+  have hne : takeLast 6 m ≠ [] := by
+    intro e; have := congrArg List.length e; simp [takeLast] at this; omega
+  have hsl : pySliceNN (Val.str m) 2 8 = .val (.str (slice 2 8 m)) := rfl
+  have hup : ∀ s : Msg, pyUpper (.str s) = .val (.str (s.map Char.toUpper)) := fun _ => rfl
+  simp only [df_str m h (by omega), bind_val', hin1, hin2, pyTruth_bool, decide_eq_true_eq, hsl, hup,
+    common_crc_true m h hl, pySlice_last6, pyInt2_hex _ (isHex_takeLast h 6) hne, pyBitXor_ofNat, pyFmtHexU6_ofNat,
+    Res.pure_eq, List.mem_cons, List.not_mem_nil, or_false]
+  split_ifs <;> rfl
 
 end PyModeS.Tie
